@@ -78,10 +78,17 @@ structure Sys where
   map : List (Nat × Nat) := []
   inflight : Option Inflight := none
   now : Nat := 0
+  /-- `s.queryClock` -/
+  clock : Nat := 0
   deriving Repr, Inhabited
 
 inductive Action where
   | register (lt id : Nat) (ack : Bool) (cap : Nat)
+  /-- `Serf.Query`: takes the Lamport time `queryClock.Increment() - 1` (one atomic step, as the regenerated
+  clock use `Gen.ClockUse.query` says) and registers the response object under it -/
+  | query (id : Nat) (ack : Bool) (cap : Nat)
+  /-- `queryClock.Witness(t)` (a query of another node, or the node's own, is handled) -/
+  | witness (t : Nat)
   | deadline (i : Nat)
   | timeout (i : Nat)
   | arrive (r : Reply)
@@ -132,11 +139,46 @@ structure CloseShape where
 def CloseShape.good (c : CloseShape) : Bool :=
   c.lockFirst && c.deferred && !c.earlyUnlock && c.closedGuard && c.setsClosed && c.closesChannels
 
+/-- `registerQueryResponse`: the registration and the closure handed to `time.AfterFunc`. -/
+structure TimerShape where
+  /-- the method holds `queryLock` (Lock first, deferred Unlock) -/
+  regLocked : Bool
+  /-- `s.queryResponse[resp.lTime] = resp` -/
+  regStores : Bool
+  /-- first argument of `time.AfterFunc` -/
+  timerArg : String
+  /-- the closure holds `queryLock` over its whole body -/
+  locked : Bool
+  /-- the closure does `delete(s.queryResponse, resp.lTime)` -/
+  deletes : Bool
+  /-- the closure does `resp.Close()` -/
+  closes : Bool
+  /-- every statement of the closure is at its top level: no `if`, no early `return` -/
+  unconditional : Bool
+  deriving DecidableEq, Repr, Inhabited
+
+def TimerShape.good (t : TimerShape) : Bool :=
+  t.regLocked && t.regStores && t.timerArg == "timeout" && t.locked && t.deletes && t.closes && t.unconditional
+
+/-- `handleQueryResponse`: classified statements in order and the two branches of the dispatch. -/
+structure HandleShape where
+  order : List String
+  ackBranch : List String
+  respBranch : List String
+  deriving DecidableEq, Repr, Inhabited
+
+/-- The step order the stages of an in-flight reply transcribe. -/
+def HandleShape.asModelled (h : HandleShape) : Bool :=
+  h.order == ["rlock", "lookup", "runlock", "missing", "idCheck", "finished", "dispatch"] &&
+  h.ackBranch == ["dupCheck:acks", "sendAck"] && h.respBranch == ["dupCheck:responses", "sendResponse"]
+
 structure Shapes where
   sendAck : SendShape
   sendResponse : SendShape
   close : CloseShape
   finishedLocked : Bool
+  timer : TimerShape
+  handle : HandleShape
   deriving DecidableEq, Repr, Inhabited
 
 def Shapes.sendAtomic (sh : Shapes) (isAck : Bool) : Bool :=
@@ -144,7 +186,13 @@ def Shapes.sendAtomic (sh : Shapes) (isAck : Bool) : Bool :=
 
 /-- The shapes under which the model's actions are the code's critical sections. -/
 def Shapes.good (sh : Shapes) : Bool :=
-  sh.sendAck.atomic && sh.sendResponse.atomic && sh.close.good && sh.finishedLocked
+  sh.sendAck.atomic && sh.sendResponse.atomic && sh.close.good && sh.finishedLocked && sh.timer.good &&
+  sh.handle.asModelled
+
+/-- The raw registration with a caller-chosen Lamport time (the hook / an arbitrary caller); `Serf.Query` is `.query`. -/
+def Action.isRegister : Action → Bool
+  | .register .. => true
+  | _ => false
 
 /-- Apply `f` to the object at index `i`. -/
 def modAt (f : QR → QR) : List QR → Nat → List QR
@@ -214,13 +262,22 @@ def act (sh : Shapes) (s : Sys) (a : Action) : Sys :=
     | .register lt id ack cap =>
       { s with objs := s.objs ++ [{ lt := lt, id := id, ackWanted := ack, cap := cap }],
                map := ainsert s.map lt s.objs.length }
+    | .query id ack cap =>
+      { s with objs := s.objs ++ [{ lt := s.clock, id := id, ackWanted := ack, cap := cap }],
+               map := ainsert s.map s.clock s.objs.length, clock := s.clock + 1 }
+    | .witness t => { s with clock := if s.clock ≤ t then t + 1 else s.clock }
     | .deadline i => { s with objs := modAt (fun q => { q with pastDeadline := true }) s.objs i }
     | .timeout i =>
       match s.objs[i]? with
       | none => s
       | some q =>
-        { s with map := aerase s.map q.lt,
-                 objs := modAt (fun q => { close s.now q with timedOut := true }) s.objs i }
+        if sh.timer.unconditional || (alookup s.map q.lt).isSome then
+          { s with map := aerase s.map q.lt,
+                   objs := modAt (fun q => { close s.now q with timedOut := true }) s.objs i }
+        else
+          -- a closure that first looks for its table entry and returns when there is none: the timer has
+          -- fired, nothing is closed
+          { s with objs := modAt (fun q => { q with timedOut := true }) s.objs i }
     | .arrive r =>
       match s.inflight with
       | some _ => s
